@@ -372,6 +372,7 @@ def check_C06(tier, seed, replay=None):
     # real-vs-real: every option combination against the default run of the same parser
     npairs = 0
     f21 = {(h["vi"], h["gi"], h["ii"], h["oi"]) for h in tot.get("kfhits", []) if h["df"] == "kf-F21"}     # parses T1 accepted under known finding F21
+    ml = {(d2["gi"], d2["ii"]) for d2 in div if "memolabel" in d2.get("haz", [])}
     for vx in range(len(run.variants)):
         obs = load_obs(run.obs[vx])
         for (gi, ii, oi), o in obs.items():
@@ -382,7 +383,7 @@ def check_C06(tier, seed, replay=None):
             for fld in ("status", "ok", "end", "val", "errs", "nomatch"):
                 a_, b_ = (o[fld]["is"], base[fld]["is"]) if fld == "nomatch" else (o[fld], base[fld])
                 if a_ != b_:
-                    hz = ["memolabel"] if any(d2["gi"] == gi and d2["ii"] == ii and "memolabel" in d2.get("haz", []) for d2 in div) else []
+                    hz = ["memolabel"] if (gi, ii) in ml else []
                     if (o["vi"], gi, ii, oi) in f21 and fld in ("errs", "nomatch"):
                         hz.append("F21")
                     div.append(dict(k=o["k"], vi=o["vi"], gi=gi, ii=ii, oi=oi, df="pair-" + fld, at=0, haz=hz))
